@@ -90,6 +90,18 @@ class SimThread(object):
     def __repr__(self):
         return "<SimThread %s>" % self.name
 
+    def join(self, timeout=None):
+        """threading.Thread.join for managed threads: the caller (a managed thread) waits until this one has ended"""
+        s = self.sched
+        if s.current() is None:
+            if not self.done:
+                raise Deadlock("unmanaged thread would wait for %s to end" % self.name)
+            return
+        s.yield_op("join", self, enabled=lambda: self.done, deadline=None if timeout is None else s.now + timeout)
+
+    def is_alive(self):
+        return not self.done
+
 
 class Scheduler(object):
     def __init__(self):
